@@ -32,6 +32,7 @@ func init() {
 			"T3 wherever a type id is wrapped in a map (MapDim = ArrayDim + 1, found by shape) the test MapDim == 0 of the same value is crossed after its last definition (no silent map<map> collapse), " +
 			"T4 (*MergeExp).HasRef delegates to the merged value only under a true KnownLength() test (a merge over a run-time length is never handed to a stage as a constant), " +
 			"T5 wherever a typed map is turned into its value type (ArrayDim = MapDim - 1, found by shape, package syntax) a test that the type has no array dimension left dominates the store, in the function or at every call of it (the array dimension is the outer one: the element of map<T>[] is map<T>, not T). " +
+			"T6 no function reachable from Pipeline.topoSort reads BindStms.Table (the sort runs before the binding tables are built; premise re-established on every run). " +
 			"NOT decided: soundness of the whole relation, projection, array dimensions, error locations: this decides a few mechanisms, not the property's behaviour.",
 		Assumptions: commonAssumptions,
 	}
